@@ -93,6 +93,27 @@ def gen_cases(rng, tier, count=None):
                 b = [float(rng.uniform(-100, 100)) for _ in range(dim)]
             else:
                 b = [float(rng.choice([-1, 1]) * 10 ** rng.uniform(0, 9)) for _ in range(dim)]
+        if i % 10 == 8:
+            # tie-rich slice: discrete rewards in d >= 2, recommendation asked after every round - tie-breaking rules
+            # are where coordinates can sneak into a decision
+            algo = str(rng.choice(["StroquOOL", "SequOOL", "SOO", "StoSOO", "DOO_delta", "HCT", "T_HOO", "POO_HCT"]))
+            dim = int(rng.integers(2, 4))
+            c = TW.safe_case(rng, algo, tier, part=str(rng.choice(EXACT_PARTS)) if exact else None, dim=dim,
+                             n_choices=[150, 200, 250, 300, 330],
+                             fams=["const", "bern", "tied", "quant5", "twoval", "zero", "negbern"])
+            c["np_seed"] = int(c["np_seed"]) // 4 * 4  # -> queries after every round
+            if exact:
+                box = [[float(rng.integers(-8, 8)) / 4, 0.0] for _ in range(dim)]
+                for iv in box:
+                    iv[1] = iv[0] + float(2.0 ** rng.integers(-2, 3))
+                s = float(2.0 ** rng.integers(-3, 4))
+                b = [float(rng.integers(-64, 64)) / 8 for _ in range(dim)]
+            else:
+                box = [[float(rng.uniform(-5, 5)), 0.0] for _ in range(dim)]
+                for iv in box:
+                    iv[1] = iv[0] + float(10 ** rng.uniform(-1, 1))
+                s = float(10 ** rng.uniform(-1, 1))
+                b = [float(rng.uniform(-100, 100)) for _ in range(dim)]
         if not exact and i % 10 == 9:
             # Zooming compares arm coordinates with cell faces: on Bin / DimBin the centre and the cut are the same
             # float expression, so the twins must agree; non-dyadic boxes that straddle 0 are where (lo+hi)/2 and
@@ -114,17 +135,28 @@ def run_case(case):
     viol, obs = [], collections.Counter()
     A = case["affine"]
     s, b, exact = A["s"], A["b"], A["exact"]
-    base = TW.run_points(case)
+    qs = None
+    if case["algo"] != "VROOM" and case["np_seed"] % 2 == 0:
+        # also ask for the recommendation between rounds (after every round, or every 7th): it must map too
+        qs = range(case["T"]) if case["np_seed"] % 4 == 0 else range(0, case["T"], 7)
+    base = TW.run_points(case, queries=qs)
     if base["crash"]:
         return {"viol": [], "obs": {}, "nontrivial": False, "crash_other": "%s:%s" % (case["algo"], base["crash"][:60])}
     img_box = TW.affine_box(case["box"], s, b)
-    img = TW.run_points(case, box=img_box)
+    img = TW.run_points(case, box=img_box, queries=qs)
     obs["exact_twins" if exact else "tolerance_twins"] += 1
     obs["points_compared"] += len(base["points"]) + 1
     if img["crash"]:
         viol.append({"pred": "C16:image_run_raises", "round": None, "detail": C.jsonable({"error": img["crash"], "s": s, "b": b})})
     else:
-        seqs = list(zip(base["points"] + [base["last"]], img["points"] + [img["last"]]))
+        if len(base["qpoints"]) != len(img["qpoints"]) or any((p == "ERR") != (q == "ERR") for p, q in zip(
+                base["qpoints"], img["qpoints"])):
+            viol.append({"pred": "C16:recommendation_queries_behave_differently_on_the_image", "round": None,
+                         "detail": C.jsonable({"s": s, "b": b})})
+        qpairs = [(p, q) for p, q in zip(base["qpoints"], img["qpoints"]) if p != "ERR"]
+        obs["recommendations_compared"] += len(qpairs)
+        seqs = list(zip(base["points"] + [base["last"]] + [p for p, _ in qpairs],
+                        img["points"] + [img["last"]] + [q for _, q in qpairs]))
         for i, (p, q) in enumerate(seqs):
             want = [s * x + bj for x, bj in zip(p, b)]
             if exact:
@@ -133,7 +165,9 @@ def run_case(case):
                 if any((x * 2.0 ** 40) != int(x * 2.0 ** 40) or abs(x) > 1024 for x in p) or any(
                         F(s) * F(x) + F(bj) != F(w) or sigbits(w) > 50 for x, bj, w in zip(p, b, want)):
                     obs["exactness_horizon_reached"] += 1
-                    break
+                    if case["algo"] == "Zooming":
+                        break  # its containment tests may legitimately go another way from here on
+                    continue  # other algorithms never look at coordinates: later exact points are still compared
                 obs["points_compared_bit_exactly"] += 1
                 ok = want == q
             else:
@@ -144,6 +178,6 @@ def run_case(case):
             if not ok:
                 viol.append({"pred": "C16:points_are_not_the_affine_image" + ("_exactly" if exact else ""),
                              "round": i, "detail": C.jsonable({"point": p, "image_expected": want, "image_got": q,
-                                                                "s": s, "b": b, "is_recommendation": i == len(seqs) - 1})})
+                                                                "s": s, "b": b, "is_recommendation": i >= len(base["points"])})})
                 break
     return {"viol": viol, "obs": dict(obs), "nontrivial": len(base["points"]) >= 50}
